@@ -18,6 +18,7 @@ package core
 
 import (
 	"fmt"
+	"strings"
 	"sync"
 )
 
@@ -328,6 +329,8 @@ type RuleDone struct {
 }
 
 func OneShotSchedule(schedule string) bool {
+	// As the crons do when they parse a schedule.
+	schedule = strings.TrimSpace(schedule)
 	if 0 == len(schedule) {
 		return false
 	}
